@@ -161,9 +161,14 @@ def gen_case(rnd, ctx, maxmut):
             st += sh.succ(x)
         return out
 
+    first_owner = {}      # container -> the object it was first stored on (Shadow.owner forgets it on detachment)
+
     def refresh():
         attached.clear()
         attached.update(subtree(0))
+        for c, w in sh.owner.items():
+            if w is not None:
+                first_owner.setdefault(c, w)
 
     named = sorted(set(f for it in items[:-1] for f in it[0]) | (set(items[-1][0]) - {0}))
 
@@ -180,10 +185,11 @@ def gen_case(rnd, ctx, maxmut):
         if v is None:
             return None
         out = []
-        for f2 in set([pick([3, 4, 5])] + ([pick([3, 4, 5])] if rnd.random() < 0.3 else [])):
-            vs = [fresh() for _ in range(rnd.randint(1, 2))]
-            if None in vs:
-                return None
+        plan = [(f2, [fresh() for _ in range(rnd.randint(1, 2))])
+                for f2 in sorted(set([pick([3, 4, 5])] + ([pick([3, 4, 5])] if rnd.random() < 0.3 else [])))]
+        if any(None in vs for _f2, vs in plan):
+            return None          # (the pool is used up: nothing has been recorded in the shadow heap yet)
+        for f2, vs in plan:
             its = [[key, x] for key, x in zip(["a", "b"], vs)] if f2 == 4 else vs
             sh.new_cont(v, f2, [list(a) for a in its] if f2 == 4 else its)
             out.append(["SetCont", v, f2, its, False])
@@ -241,6 +247,29 @@ def gen_case(rnd, ctx, maxmut):
             items = [[key, v] for key, v in zip(["a", "b"], vs)] if f == 4 else vs
             sh.new_cont(o, f, [list(a) for a in items] if f == 4 else items)
             return ["SetCont", o, f, items, False]
+        stale = [c for c in sh.items if sh.owner[c] is None and sh.kind[c] == 6 and c in first_owner
+                 and first_owner[c] not in dictkind]
+        if stale and rnd.random() < 0.25:
+            # a list that has been REPLACED on its owner (a kept reference) gets a fresh object: nobody may follow it
+            c = rnd.choice(stale)
+            cur = sh.items[c]
+            n = len(cur)
+            v = fresh()
+            if v is None:
+                return None
+            meth = rnd.choice(["append", "insert"] + (["setitem", "setitem"] if n else []))
+            if meth == "append":
+                sp, args = [n, 0, [v]], [v]
+            elif meth == "insert":
+                i = rnd.randint(0, n)
+                sp, args = [i, 0, [v]], [i, v]
+            else:
+                i = rnd.randrange(n)
+                sp, args = [i, 1, [v]], [i, v]
+            i, k, vs = sp
+            sh.items[c] = cur[:i] + list(vs) + cur[i + k:]
+            ctx.count("op:insert-into-replaced-list")
+            return ["Cop", c, 6, meth, args, sp]
         conts = [c for c in sh.items if sh.owner[c] is not None and sh.owner[c] in pool]
         if not conts:
             return None
@@ -568,6 +597,16 @@ def corpus():
         cs.append(dict(npool=18, root=0, items=it, legacy=legacy_text(it), graphs=l2g(it),
                        ops=[attach, ["Reg"], ["Probe", 1], ["SetRef", 1, 2, 2], ["Probe", 1], ["Probe", 2],
                             ["Unreg"], ["Probe", 1]]))
+    # seventh wave, pinned: the list of a List link is replaced, then the REPLACED list (a kept reference) is mutated;
+    # the objects inserted into it are not reachable along the name
+    for it in ([[[3], "."], [[0], "."]], [[[1], ":"], [[3], "."], [[0], "."]]):
+        o = 0 if len(it) == 2 else 1
+        pre = [] if o == 0 else [["SetRef", 0, 1, 1]]
+        cs.append(dict(npool=18, root=0, items=it, legacy=legacy_text(it), graphs=l2g(it),
+                       ops=pre + [["SetCont", o, 3, [2], False], ["Reg"], ["Probe", 2], ["SetCont", o, 3, [3], False],
+                                  ["Probe", 2], ["Probe", 3], ["Cop", 18, 6, "append", [4], [1, 0, [4]]], ["Probe", 4],
+                                  ["Probe", 3], ["Cop", 18, 6, "setitem", [0, 5], [0, 1, [5]]], ["Probe", 5], ["Probe", 2],
+                                  ["Unreg"], ["Probe", 3], ["Probe", 4]]))
     return cs
 
 
